@@ -15,6 +15,8 @@ import PenneModel.Types.Ops
 import PenneModel.Mut.Model
 import PenneModel.Flat.Header
 import PenneModel.Flat.Parser
+import PenneModel.Syn.Parse
+import PenneModel.Syn.Print
 /-
   Model driver: one request per line on stdin (`OP<TAB>payload`), one answer per line on stdout.
   Only model files are imported (no Mathlib, no proof files), so this links as a native executable.
@@ -145,6 +147,23 @@ def c12 (payload : String) : String :=
     | _, _, _ => "bad-request"
   | _ => "bad-request"
 
+def unhexGo : List Char → List UInt8 → List UInt8
+  | a :: b :: rest, acc => unhexGo rest (UInt8.ofNat (Sexp.hexVal a * 16 + Sexp.hexVal b) :: acc)
+  | _, acc => acc.reverse
+
+def unhexStr (h : String) : String :=
+  match String.fromUTF8? (ByteArray.mk (unhexGo h.toList []).toArray) with
+  | some s => s
+  | none => ""
+
+def synTokOf (w : String) : Option Syn.Tok :=
+  match w.splitOn ":" with
+  | [k, t, v, vt] => do
+    let kind ← Flat.Kind.ofName k
+    let val ← v.toNat?
+    some { kind := kind, text := unhexStr t, val := val, vt := vt }
+  | _ => none
+
 def handle (op payload : String) : String :=
   match op with
   | "C04" =>
@@ -203,6 +222,16 @@ def handle (op payload : String) : String :=
       let r := Flat.parseAll ts
       let errs := r.errors.map (fun (e, pos) => s!"{(reprStr e).replace "Flat.PErr." ""}@{pos}")
       s!"nodes={r.nodes.length} decls={r.decls} assert={r.assertFailed} fuel={r.outOfFuel} errors={",".intercalate errs} tags={",".intercalate (r.nodes.map Flat.Tag.name)}"
+  | "synparse" | "synprint" =>
+    -- tokens `Kind:hex(text):value:type` separated by spaces -> canonical tree / the rebuilder's tokens of that tree
+    match (payload.splitOn " ").mapM synTokOf with
+    | none => "bad-token"
+    | some ts =>
+      match Syn.parseRef ts with
+      | none => "reject"
+      | some ds =>
+        if op == "synparse" then "ok " ++ Syn.showModule ds
+        else "ok " ++ " ".intercalate ((Syn.printModule ds).map Syn.showTok)
   | "header" =>
     match Sexp.parse payload with
     | some (.list ns) =>
